@@ -61,6 +61,8 @@ func coqTV(t time.Time) string {
 	return cApp("TV", cZ(t.Unix()), cZ(int64(t.Nanosecond())), cZ(int64(off)))
 }
 
+var c18Arena [512]byte
+
 // codecReadTime runs c.Read on bs into a time.Time placed between canaries.
 func codecReadTime(c avro.Codec, bs []byte) (res tmRes) {
 	defer func() {
@@ -75,7 +77,14 @@ func codecReadTime(c avro.Codec, bs []byte) (res tmRes) {
 	}
 	cell.pre, cell.post = 0xA5A5A5A5A5A5A5A5, 0x5A5A5A5A5A5A5A5A
 	cell.t = time.Unix(77, 77).UTC() // sentinel
-	r := avro.NewReadBuf(bs)
+	// every decode reads from the same recycled storage, as ReadFile's block buffer is:
+	// nothing the codec keeps from an earlier call may still refer to it
+	in := bs
+	if len(bs) <= len(c18Arena) {
+		in = c18Arena[:len(bs):len(bs)]
+		copy(in, bs)
+	}
+	r := avro.NewReadBuf(in)
 	err := c.Read(r, unsafe.Pointer(&cell.t))
 	if cell.pre != 0xA5A5A5A5A5A5A5A5 || cell.post != 0x5A5A5A5A5A5A5A5A {
 		return tmRes{Class: "panic", Msg: "stored outside the destination"}
